@@ -37,8 +37,8 @@ WRAPPERS = {
     'stringSplit': ['{0}.split({1})'], 'regexSplit': ['{0}.split({1})'], 'stringLength': ['len({0})'], 'arrayLength': ['len({0})'],
     'objectKeys': ['list({0}.keys())', 'list({0})'], 'arrayCopy': ['list({0})', '{0}[:]', '{0}.copy()'], 'objectCopy': ['dict({0})', '{0}.copy()'],
     'regexEscape': ['re.escape({0})'], 'objectHas': ['{1} in {0}'], 'stringRepeat': ['{0} * int({1})'], 'arrayJoin': ['{1}.join((value_string(value) for value in {0}))'],
-    'stringCharCodeAt': ['ord({0}[int({1})])'], 'arrayGet': ['{0}[int({1})]'], 'stringIndexOf': ['{0}.find({1}, int({2}))'],
-    'stringLastIndexOf': ['{0}.rfind({1}, 0, int({2}) + len({1}))'], 'arraySlice': ['{0}[int({1}):int({2})]'], 'stringSlice': ['{0}[int({1}):int({2})]'],
+    
+    
     'objectGet': ['{0}.get({1}, {2})'],
 }
 
@@ -145,76 +145,28 @@ def check_validate_before_mutate(chk):
         raise Unrecognised('C15.M', f'only {n} mutation sites found', None)
 
 
-def check_bounds(chk):
-    n = 0
-    for lf in library_functions(chk.repo, 'C15.B'):
-        if not (lf.targets and lf.model):
-            continue
-        seqs = {t for t, e in zip(lf.targets, lf.model) if t and e.get('type') in ('array', 'string')}
-        nums = {t: e for t, e in zip(lf.targets, lf.model) if t and e.get('type') == 'number'}
-        if not seqs or not nums:
-            continue
-        guards = []      # (var, op, base) from top-level `if var OP len(base): raise`
-        for s in lf.func.body:
-            if isinstance(s, ast.If) and any(isinstance(x, ast.Raise) for x in s.body) and isinstance(s.test, ast.Compare) and len(s.test.ops) == 1:
-                l, r = s.test.left, s.test.comparators[0]
-                if isinstance(l, ast.Name) and isinstance(r, ast.Call) and call_name(r) == 'len' and isinstance(r.args[0], ast.Name):
-                    guards.append((l.id, type(s.test.ops[0]), r.args[0].id, s))
-        for node in walk_no_nested(lf.func):
-            if isinstance(node, ast.Call) and (call_name(node) == 'range' or (isinstance(node.func, ast.Attribute) and node.func.attr in ('find', 'rfind', 'index')
-                                                                              and isinstance(node.func.value, ast.Name) and node.func.value.id in seqs)):
-                args = node.args if call_name(node) == 'range' else node.args[1:]
-                used = [v for v in nums if any(isinstance(x, ast.Name) and x.id == v for a in args for x in ast.walk(a))]
-                base = node.func.value.id if call_name(node) != 'range' else (next(iter(seqs)) if len(seqs) == 1 else None)
-                for var in used:
-                    if base is None:
-                        continue
-                    n += 1
-                    entry = nums[var]
-                    lower = entry.get('gte') is not None and entry['gte'] >= 0
-                    g = [x for x in guards if x[0] == var and x[2] == base]
-                    upper = any(op in (ast.GtE, ast.Gt) for _v, op, _b, _s in g)
-                    where = f'{lf.name}: {norm(node)[:50]} [scan start {var}]'
-                    if call_name(node) == 'range' and var in ('size', 'count'):
-                        n -= 1
-                        continue
-                    if lower and upper:
-                        chk.ok('C15.B', where + ': model gte >= 0 and a dominating upper-bound test that raises')
-                    else:
-                        chk.bad('C15.B', lf.mod, lf.pyname, f'{norm(node)[:60]}: {"no lower bound" if not lower else "no upper bound test"} for {var}',
-                                f'{lf.name}: the search start {var} is not bounded ({"model lacks gte >= 0" if not lower else "no test against len(" + base + ") that raises the failure value"})', node=node)
-                continue
-            if not (isinstance(node, ast.Subscript) and isinstance(node.value, ast.Name) and node.value.id in seqs):
-                continue
-            base = node.value.id
-            uses = []
-            if isinstance(node.slice, ast.Slice):
-                for part, kind in ((node.slice.lower, 'slice'), (node.slice.upper, 'slice')):
-                    if part is not None:
-                        uses += [(v, kind) for v in nums if any(isinstance(x, ast.Name) and x.id == v for x in ast.walk(part))]
-            else:
-                uses += [(v, 'element') for v in nums if any(isinstance(x, ast.Name) and x.id == v for x in ast.walk(node.slice))]
-            for var, kind in uses:
-                n += 1
-                entry = nums[var]
-                lower = entry.get('gte') is not None and entry['gte'] >= 0 or (entry.get('gt') is not None and entry['gt'] >= -1)
-                g = [x for x in guards if x[0] == var and x[2] == base]
-                want_ops = (ast.GtE,) if kind == 'element' else (ast.Gt, ast.GtE)
-                upper = any(op in want_ops for _v, op, _b, _s in g)
-                where = f'{lf.name}: {norm(node)[:50]} [{kind} by {var}]'
-                if lower and upper:
-                    chk.ok('C15.B', where + f": model gte {entry.get('gte', entry.get('gt'))} and a dominating upper-bound test that raises")
-                elif not lower:
-                    chk.bad('C15.B', lf.mod, lf.pyname, f'{norm(node)[:60]}: no lower bound for {var}',
-                            f"{lf.name}: the argument model of '{entry.get('name')}' has no gte >= 0: a negative index reaches Python's negative indexing and silently addresses "
-                            f"elements from the end instead of returning the failure value", node=node)
-                else:
-                    have = [x[1].__name__ for x in g]
-                    chk.bad('C15.B', lf.mod, lf.pyname, f'{norm(node)[:60]}: no upper bound test for {var}',
-                            f"{lf.name}: {var} is used as {kind} index of {base} without the test `{var} {'>=' if kind == 'element' else '>'} len({base})` that raises the documented failure "
-                            f"(found: {have or 'none'}): an out-of-range index is not rejected up front", node=node)
-    if n < 10:
-        raise Unrecognised('C15.B', f'only {n} index sinks found', None)
+def check_bounds(chk, rule='C15.B', kinds=('result', 'unchanged', 'host')):
+    """C15.B by abstract execution (E6l): every index-taking array/string function on sequences of length 0-3 (arrays of opaque values) with indices -2..5 written
+    as int and as float, non-integral, null, wrong-typed, boolean and missing indices, compared with the reference list / str model"""
+    from .. import libsim
+    cache = getattr(chk, '_index_sim', None)
+    if cache is None:
+        libfuncs = {lf.name: lf for lf in library_functions(chk.repo, rule)}
+        cache = chk._index_sim = (libfuncs,) + libsim.run_index_functions(chk.repo, libfuncs, rule)
+    libfuncs, n, per_fn, problems = cache
+    mine = [p for p in problems if p[1] in kinds]
+    by_fn = {}
+    for name, kind, msg in mine:
+        by_fn.setdefault((name, kind), []).append(msg)
+    for (name, kind), msgs in sorted(by_fn.items()):
+        lf = libfuncs[name]
+        chk.bad(rule, lf.mod, lf.pyname, f'{name} [{kind}]: {msgs[0][:110]}', f'abstract execution of {name}: {msgs[0]} ({len(msgs)} of {per_fn.get(name, 0)} runs of this function deviate this way)', node=lf.func)
+    for name, cnt in sorted(per_fn.items()):
+        if not any(k[0] == name for k in by_fn):
+            what = {'result': 'results, failure values and the effect on the array equal the reference list / str model; arguments unchanged on failure; no host exception',
+                    'spelling': 'int and float spellings of every number give the same result'}
+            chk.ok(rule, f'{name}: {cnt} abstract calls (sequence lengths 0-3/5, index -2..5 as int and float, 1.5, null, wrong type, boolean, missing): '
+                   + (what['spelling'] if kinds == ('spelling',) else what['result']) + ' (E6l)', count=cnt)
 
 
 def is_fresh(e, params):
@@ -346,8 +298,6 @@ def check_wrappers(chk):
         else:
             chk.unrec('C15.H', f'{name}: return expression {got[:80]} is not a recognised form of {accepted[0]}', lf.mod.rel)
     stmt_forms = {
-        'arraySet': ('{0}[int({1})] = {2}', 'the store array[int(index)] = value'),
-        'arrayDelete': ('del {0}[int({1})]', 'del array[int(index)]'),
         'objectSet': ('{0}[{1}] = {2}', 'the store object[key] = value'),
         'arrayPush': ('{0}.extend({1})', 'array.extend(values)'),
         'arrayExtend': ('{0}.extend({1})', 'array.extend(array2)'),
@@ -406,10 +356,10 @@ def check_defaults(chk):
 def run(chk):
     chk.rule('C15.V', 'failure value agreement (declared, explicit raises, documented sentinel)', floor=20)
     chk.rule('C15.M', 'validate (and every failure exit) before mutating an argument', floor=10)
-    chk.rule('C15.B', 'bounds facts at index sinks (model gte >= 0 + dominating upper-bound test)', floor=10)
+    chk.rule('C15.B', 'index-taking array / string functions agree with the reference sequence model on every index (abstract execution, E6l)', floor=1000)
     chk.rule('C15.A', 'aliasing contract: return-the-argument vs return-a-fresh-container', floor=18)
     chk.rule('C15.T', 'argument type test accepts exactly the atoms of the declared BareScript type', floor=7)
-    chk.rule('C15.H', 'thin wrappers return / perform exactly the host operation (reference model by construction)', floor=30)
+    chk.rule('C15.H', 'thin wrappers return / perform exactly the host operation (reference model by construction)', floor=20)
     chk.rule('C15.D', 'optional arguments defaulted by `is None`, never by `or`', floor=4)
     chk.assumptions += ['host list / dict / str operations are the reference sequence / map / string model; value_args_validate is applied first (C15.M)']
     chk.guard('C15.V', check_failure_values, chk)
